@@ -105,6 +105,7 @@ type Guard struct{ Type, Field, Lock string }
 type SpecSet struct {
 	Funcs    map[string]*FuncSpec
 	Order    []string
+	Invariants []*Clause // global invariants: implicit pre/postcondition of every function and invariant of every loop
 	SpecFuns map[string]*SpecFun
 	Ghosts   map[string]*GhostDecl
 	Axioms   []*Axiom
@@ -522,6 +523,19 @@ func (ss *SpecSet) parseFile(path string) error {
 			}
 			ax.Expr = e
 			ss.Axioms = append(ss.Axioms, ax)
+		case "invariant":
+			// invariant name : expr   (global: holds at every function boundary and every loop head)
+			i := strings.Index(rest, ":")
+			if i < 0 || cur != nil {
+				return fail("invariant name : expr (outside func)")
+			}
+			c, err := mk("global-invariant", strings.TrimSpace(rest[i+1:]))
+			if err != nil {
+				return err
+			}
+			c.Site = strings.TrimSpace(rest[:i])
+			c.Ord = 900 + len(ss.Invariants)
+			ss.Invariants = append(ss.Invariants, c)
 		case "guarded":
 			// guarded T.f by m
 			f := strings.Fields(rest)
